@@ -127,6 +127,12 @@ impl Stage<'_> {
             }
         }
     }
+
+    /// Verification hook: number of systems in every group of this stage.
+    #[cfg(feature = "verif-hooks")]
+    pub fn verif_group_sizes(&self) -> Vec<usize> {
+        self.groups.iter().map(|g| g.len()).collect()
+    }
 }
 
 #[derive(Default)]
